@@ -152,12 +152,16 @@ SubElem(banc, x, y) ==
 SameOrSubCls(W, ta, tb) == ta.k = "cls" /\ tb.k = "cls" /\ IsSub(W, ta.c, tb.c)
 
 IsDepT(t) == t.k \in {"dep", "lit", "prod", "seqof", "collof", "mapof", "startswith", "endswith", "haskey"}
+(* bounds: a class or a union of classes (int | str) *)
+IsStBound(b) == b.k = "cls" \/ (b.k = "union" /\ \A j \in DOMAIN b.args : b.args[j].k = "cls")
+StMembers(b) == IF b.k = "cls" THEN {b.c} ELSE {b.args[j].c : j \in DOMAIN b.args}
+StLE(W, x, y) == \A mx \in StMembers(x) : \E my \in StMembers(y) : IsSub(W, mx, my)
 TypeLE(W, ta, tb) ==
   IF ta.k = "cls" /\ tb.k = "cls" THEN IsSub(W, ta.c, tb.c)
   ELSE IF IsDepT(ta) /\ tb.k = "cls" THEN
-       ta.bound.k = "cls" /\ (IsSub(W, tb.c, ta.bound.c) \/ IsSub(W, ta.bound.c, tb.c))
+       IsStBound(ta.bound) /\ (StLE(W, tb, ta.bound) \/ StLE(W, ta.bound, tb))
   ELSE IF IsDepT(ta) /\ IsDepT(tb) THEN
        \/ ta = tb
-       \/ ta.bound.k = "cls" /\ tb.bound.k = "cls" /\ ta.bound.c # tb.bound.c /\ IsSub(W, ta.bound.c, tb.bound.c)
+       \/ IsStBound(ta.bound) /\ IsStBound(tb.bound) /\ StLE(W, ta.bound, tb.bound) /\ ~StLE(W, tb.bound, ta.bound)
   ELSE ta = tb
 =============================================================================
